@@ -214,6 +214,28 @@ def ownEvs (env : Env) (kw : Kw) (v : J) (childEvs : List Ev) : List Ev :=
   | .arr xs => arrEvs kw xs childEvs
   | .obj kvs => objEvs kw kvs childEvs
 
+def discMissingErr (kw : Kw) : Err :=
+  { field := "discriminator", value := none,
+    reason := [.lit "input does not contain the discriminator property ", .schemaQ kw.discProp] }
+def discNotStringErr (kw : Kw) (x : J) : Err :=
+  mark (.key kw.discProp) (Err.mk "discriminator" [] (some x)
+    [.lit "value of discriminator property ", .schemaQ kw.discProp, .lit " is not a string"])
+def discUnmappedErr (kw : Kw) (x : J) : Err :=
+  mark (.key kw.discProp) (Err.mk "discriminator" [] (some x)
+    [.lit "discriminator property ", .schemaQ kw.discProp, .lit " has invalid value"])
+
+/-- the three errors of the discriminator pre-check (fatal); the value-quoting ones are marked with the property name -/
+def discEvs (kw : Kw) (v : J) : List Ev :=
+  match discCheck kw v with
+  | .missing => [.fail (discMissingErr kw) true]
+  | .notString x => [.fail (discNotStringErr kw x) true]
+  | .unmapped x => [.fail (discUnmappedErr kw x) true]
+  | _ => []
+
+def skippedErr : Err := { field := "<skipped by discriminator>" }
+/-- stands for a oneOf item the discriminator skipped: it does not count as a match -/
+def skipped : List Ev := [.fail skippedErr true]
+
 def oneOfReason (oneSubs : List (List Ev)) : List Frag :=
   if decide (1 < passCount oneSubs) then
     [.lit "value matches more than one schema from \"oneOf\" (matches schemas at indices ", .indices (passIdx oneSubs 0), .lit ")"]
@@ -225,7 +247,7 @@ def evCombine (env : Env) (kw : Kw) (a b c : List S) (shortcut : Bool) (v : J)
   if v.isNull && kw.permitsNull then [] else
   if shortcut then (if v.isNull then [.fail nullErr true] else []) else
   notEvs ++
-  (if c.isEmpty then [] else [.comp .oneOf (here "oneOf" v (oneOfReason oneSubs)) oneSubs]) ++
+  (if c.isEmpty then [] else discEvs kw v ++ [.comp .oneOf (here "oneOf" v (oneOfReason oneSubs)) oneSubs]) ++
   (if b.isEmpty then [] else [.comp .anyOf (here "anyOf" v [.lit "doesn't match any schema from \"anyOf\""]) anySubs]) ++
   (if a.isEmpty then [] else [.comp .allOf (here "allOf" v [.lit "doesn't match all schemas from \"allOf\""]) allSubs]) ++
   (if v.isNull && (!c.isEmpty || !b.isEmpty || !a.isEmpty) then []
@@ -244,7 +266,7 @@ def events (env : Env) : S → J → List Ev
   | .mk kw a b c n i p ad, v =>
     evCombine env kw a b c (S.mk kw a b c n i p ad).shortcut v
       (match n with | none => [] | some s => [.comp .not (here "not" v [.lit "Doesn't match schema \"not\""]) [events env s v]])
-      (eventsEach env c v) (eventsEach env b v) (eventsEach env a v)
+      (eventsSel env (discCheck kw v).ref c v) (eventsEach env b v) (eventsEach env a v)
       (match v with
        | .arr xs => (match i with | none => [] | some s => itemsEvs env s xs 0)
        | .obj kvs => propsEvs env p ad kw.addHas v kvs
@@ -253,6 +275,10 @@ termination_by s v => (sizeOf v, sizeOf s)
 def eventsEach (env : Env) : List S → J → List (List Ev)
   | [], _ => []
   | s :: ss, v => events env s v :: eventsEach env ss v
+termination_by ss v => (sizeOf v, sizeOf ss)
+def eventsSel (env : Env) (dr : String) : List S → J → List (List Ev)
+  | [], _ => []
+  | s :: ss, v => (if selOK dr s then events env s v else skipped) :: eventsSel env dr ss v
 termination_by ss v => (sizeOf v, sizeOf ss)
 def itemsEvs (env : Env) : S → List J → Nat → List Ev
   | _, [], _ => []
